@@ -103,7 +103,8 @@ def draw_env(rng):
 
 def draw_info(rng):
     n = rng.choice([0, 0, 1, 2, 3])
-    funds = [{"denom": d, "amount": str(rng.randrange(1, 10**9))} for d in rng.sample(["uatom", "ujuno", "uosmo", "x"], n)]
+    # (a coin of amount zero is a coin: the handler sees the funds as sent)
+    funds = [{"denom": d, "amount": str(rng.choice([0, rng.randrange(1, 10**9), rng.randrange(1, 10**9)]))} for d in rng.sample(["uatom", "ujuno", "uosmo", "x"], n)]
     sender = rng.choice(["alice", "bob", "carol", "dave"]) + str(rng.randrange(100))
     if rng.random() < 0.25:
         # a well-formed bech32 address of one of the apis in use, in its (equally valid) all-upper-case spelling, or with
